@@ -343,6 +343,8 @@ values, due / not-due reconnects and recv() chunks -/
 inductive DReach (cfg : Cfg) (base : St) : St → Prop
   | start : DReach cfg base (drvStart cfg (initSt cfg base))
   | run {s : St} (now : Nat) (due : Bool) (lines : List Msg) : DReach cfg base s → DReach cfg base (drvRun cfg now due lines s)
+  /-- the environment starts refusing connections (the next `n` attempts) -/
+  | fail {s : St} (n : Nat) : DReach cfg base s → DReach cfg base (setFails n s)
 
 theorem α_flush (s : St) : α (flush s) = α s ∨
     α (flush s) = { α s with kinds := [], slowOk := true, joinQ := false, bad := (flush s).joinBad } := by
@@ -414,6 +416,7 @@ theorem DInv.dreach {cfg : Cfg} {I : Abs → Prop} (inv : DInv cfg I) (hr : cfg.
     split
     · exact inv.flush _ (inv.feedLines lines (inv.flush _ h1))
     · exact h1
+  | fail n r0 ih => exact ih
 
 theorem AbsInv.toDInv {cfg : Cfg} {I : Abs → Prop} (inv : AbsInv cfg I) : DInv cfg I :=
   ⟨fun _ h m => inv.move h m, inv.side, fun _ h => inv.flush h⟩
